@@ -1,7 +1,7 @@
 """C13 — run() is idempotent and monotone re-runs equal a fresh run."""
 from . import core, eng, gen, engcheck
 
-THEOREMS = ["derivable_between", "derivable_union_restart", "rerun_idempotent", "monotone_rerun", "wfSt_pushRows"]
+THEOREMS = ["derivable_between", "derivable_union_restart", "rerun_idempotent", "monotone_rerun", "wfSt_pushRows", "run_lattice_from", "lattice_rerun_idempotent"]
 TRUSTED = ["Lean 4.33.0 kernel", "axioms: propext, Classical.choice, Quot.sound only (audited per theorem)",
            "statement: Props/C13.lean (histories run;run and run;push;run from any well-formed program value, aggregation-free serial programs)",
            "model Model/Engine.lean (index contents persist between runs; update_indices re-inserts every row) tied by compiled programs driven "
@@ -53,6 +53,24 @@ def build(rng, tier):
                     ops.append(f"eng push {inst} r{r}" + "".join(" " + eng.sx_tuple(t) for t in rows)); union[r] = union.get(r, []) + list(rows)
             ops += [f"eng run {inst}", f"eng dump {inst}"]
             cases.append(engcheck.Case(pid, inst, ops, {"inp": inp, "marks": ["same", union], "kind": "par-history"}))
+    # lattice programs: run; run (idempotent: lattice_rerun_idempotent) and run; push; run vs fresh run on the union
+    for i, p in enumerate(engcheck.make_programs(rng.fork("c13lat"), 5 if tier == "quick" else 25, genf=gen.gen_lat_program, filt=gen.lat_ok)):
+        pid = f"hl{i}"
+        progs[pid] = p
+        mods.append((pid, eng.rs_module(pid, p)))
+        for j in range(4 if tier == "quick" else 10):
+            r2 = rng.fork(f"{pid}h{j}")
+            inp = gen.gen_lat_input(r2, p)
+            inst = f"{pid}_{j}"
+            ops = [f"eng new {inst} {pid}"] + engcheck.load_ops(inst, inp) + [f"eng run {inst}", f"eng dump {inst}", f"eng run {inst}", f"eng dump {inst}"]
+            marks = ["same"]
+            extra = {r: rows for r, rows in gen.gen_input(r2, p, max_rows=3).items() if not p["rels"][r].get("lat")}
+            union = {r: list(v) for r, v in inp.items()}
+            for r, rows in extra.items():
+                if rows:
+                    ops.append(f"eng push {inst} r{r}" + "".join(" " + eng.sx_tuple(t) for t in rows)); union[r] = union.get(r, []) + list(rows)
+            ops += [f"eng run {inst}", f"eng dump {inst}"]; marks.append(union)
+            cases.append(engcheck.Case(pid, inst, ops, {"inp": inp, "marks": marks, "kind": "lattice-history"}))
     # programs WITH aggregation: the statement's first half (idempotence) is claimed for them too and fails (finding F2)
     for i, p in enumerate(engcheck.make_programs(rng.fork("c13agg"), 3 if tier == "quick" else 12, genf=gen.gen_agg_program, filt=eng.stratifiable)):
         pid = f"ha{i}"
@@ -97,7 +115,7 @@ def oracle(c, p, out):
 
 
 def check(tier, replay=None):
-    return engcheck.run_property("C13", tier, modules=["AscentVerif.Props.C13"], theorems=THEOREMS, trusted=TRUSTED, group="c13",
+    return engcheck.run_property("C13", tier, modules=["AscentVerif.Props.C13", "AscentVerif.Props.C13L"], theorems=THEOREMS, trusted=TRUSTED, group="c13",
                                  build=build, oracle=oracle, known=known, what="histories of run / push on compiled programs",
                                  rule="generated aggregation-free programs x histories run; (run | push facts into any relations incl. derived ones; run){1..3}; "
                                       "after an unmodified re-run every relation must be unchanged as a set, after pushes it must equal the naive least model "
